@@ -344,7 +344,8 @@ fn run_net(ws: &[&str]) -> String {
     let mut pre_servers = vec![];
     let mut pre_ports = vec![];
     if pre {
-        for (fault, body) in [("truncated", &b"{\"access_token\":\"STALE-STALE-STALE-STALE\",\"token_type\":\"bearer\"}"[..]), ("none", &b"{\"stale\":true}"[..])] {
+        // (the failing one comes LAST, immediately before the observed call)
+        for (fault, body) in [("none", &b"{\"stale\":true}"[..]), ("truncated", &b"{\"access_token\":\"STALE-STALE-STALE-STALE\",\"token_type\":\"bearer\"}"[..])] {
             let l = TcpListener::bind("127.0.0.1:0").unwrap();
             let p = l.local_addr().unwrap().port();
             let (tx, rx) = mpsc::channel::<()>();
